@@ -424,6 +424,8 @@ func c11Scenarios() []c11Scenario {
 		c11Scenario{"follower", base, f("W3 SW FOLLOW:follower FWAIT:1 W1 SW FWAIT:2 W1 SW CMP:1 RETL0:2 W1 SW FWAIT:4 FSTOP CL")},
 		c11Scenario{"legacy-restore-snapshot-only", base, f("V3GEN:snaponly RESTORE:restored")},
 		c11Scenario{"legacy-restore-with-wal", base, f("V3GEN:full RESTORE:restored")},
+		// byte-budgeted syncs whose LAST chunk is itself budget-limited (one transaction larger than the budget)
+		c11Scenario{"chunked-big-tx", cfgWith(func(c *scn.Config) { c.MaxSyncWALFrames = 2 }), f("W3 SW WN:3 SW W1 WN:2 SW LC:PASSIVE WN:4 SW CL")},
 		c11Scenario{"retention-off", cfgWith(func(c *scn.Config) { c.RetentionEnabled = false }), f("W3 SW W1 SW CMP:1 RETL0:2 SNAP W1 SW SNAP RET9:1 CL")},
 		c11Scenario{"nostore", cfgWith(func(c *scn.Config) { c.UseStore = false }), f("W3 SW W1 SW CMP:1 SNAP RET9:0 LC:TRUNCATE W1 SW CL")},
 	)
@@ -441,7 +443,7 @@ func c11(args []string) int {
 	scs := c11Scenarios()
 	if ev.Tier() != "thorough" {
 		// quick: the scenarios that between them contain every publish/delete site
-		keep := map[string]bool{"sync+ckpt": true, "compact+retain": true, "restore+close": true, "behind-replica-fetch": true, "follower": true, "behind-replica-idle": true, "legacy-restore-snapshot-only": true, "legacy-restore-with-wal": true}
+		keep := map[string]bool{"sync+ckpt": true, "compact+retain": true, "restore+close": true, "behind-replica-fetch": true, "follower": true, "behind-replica-idle": true, "legacy-restore-snapshot-only": true, "legacy-restore-with-wal": true, "chunked": true, "chunked-big-tx": true}
 		var q []c11Scenario
 		for _, s := range scs {
 			if keep[s.Name] {
